@@ -1,0 +1,94 @@
+//go:build verif
+
+// Contracts checked by /verif (govc). Comments only; not part of any normal build.
+
+package smgp
+
+// ---------------------------------------------------------------- optional parameters (TLV), C16
+
+//@ func NewOption
+//@   props C16
+//@   ensures [C16 tag] result.tag == uint16(tag)
+//@   ensures [C16 length] int(result.length) == len(value) % 65536
+//@   ensures [C16 value] content(result.value) == content(value)
+
+//@ func (o Option) Bytes
+//@   props C16,C03
+//@   ensures [C16 len] len(result) == int(o.length) + 4
+//@   ensures [C16 image.exact] int(o.length) == len(o.value) ==> result == cat(be16(int(o.tag)), be16(int(o.length)), content(o.value))
+//@   ensures [C16 image.truncated] int(o.length) < len(o.value) ==> result == cat(be16(int(o.tag)), be16(int(o.length)), take(content(o.value), int(o.length)))
+//@   ensures [C16 image.padded] int(o.length) > len(o.value) ==> result == cat(be16(int(o.tag)), be16(int(o.length)), content(o.value), zeros(int(o.length) - len(o.value)))
+//@   ensures [C12 fresh] fresh(result)
+//@   option alloc = int(o.length) + 4
+
+//@ func (o Option) Len
+//@   props C16
+//@   ensures result == int(o.length)
+
+//@ func (o Options) Serialize
+//@   props C16,C03
+//@   ensures [C16,C01,C02 image] isperm(rangeord, o) && result == tlvser(o, rangeord, 0, len(o))
+//@   loop 1
+//@     invariant 0 <= rangepos && rangepos <= len(o)
+//@     invariant content(b) == tlvser(o, rangeord, 0, rangepos)
+//@     decreases len(o) - rangepos
+
+//@ func (o Options) Len
+//@   props C16
+//@   ensures [C16 len] result == len(tlvser(o, rangeord, 0, len(o)))
+//@   loop 1
+//@     invariant 0 <= rangepos && rangepos <= len(o)
+//@     invariant length == len(tlvser(o, rangeord, 0, rangepos))
+//@     decreases len(o) - rangepos
+
+//@ func (o Options) TP_udhi
+//@   props C16,C03
+//@   ensures [C16 accessor] true
+
+//@ func ParseOptions
+//@   props C16,C03
+//@   ensures [C16,C11 wf] err == nil ==> tlvwf(result)
+//@   ensures [C16 errors] err == nil || err == ErrLength
+//@   ensures [C03 alloc] alloc <= old(alloc) + 25 * len(rawData) + 256
+//@   option alloc = 25 * len(rawData) + 256
+//@   behavior ser props=C16,C01,C02
+//@   ghost M Options, ord Ord
+//@   requires isperm(ord, M) && tlvwf(M) && content(rawData) == tlvser(M, ord, 0, len(M))
+//@   ensures [C16,C01,C02 parsed] err == nil && mapeq(result, M)
+//@   loop 1
+//@     invariant 0 <= p && p <= length
+//@     invariant tlvwf(ops)
+//@     invariant alloc <= entry(alloc) + 25 * p
+//@     invariant drop(content(rawData), p + 2) == drop(drop(content(rawData), p), 2) && drop(content(rawData), p + 4) == drop(drop(content(rawData), p), 4)
+//@     invariant @ser 0 <= iter && iter <= len(M) && drop(content(rawData), p) == tlvser(M, ord, iter, len(M))
+//@     invariant @ser len(ops) == iter
+//@     invariant @ser forall k int :: mapdom(ops, k) <==> (mapdom(M, k) && ordinv(ord, k) < iter)
+//@     invariant @ser forall k int :: mapdom(ops, k) ==> ops[k].tag == M[k].tag && ops[k].length == M[k].length && content(ops[k].value) == content(M[k].value)
+//@     decreases length - p
+
+//@ func ReadOptions
+//@   props C16,C03
+//@   requires packet.rinv(r)
+//@   modifies r.buffer.unread, r.opError
+//@   ensures packet.rinv(r)
+//@   ensures [C16,C11 wf] tlvwf(result)
+//@   ensures [C03 consumed] len(packet.rem(r)) <= old(len(packet.rem(r)))
+//@   ensures [C03 sticky] old(packet.rfailed(r)) ==> packet.rfailed(r)
+//@   ensures [C03 alloc] alloc <= old(alloc) + 25 * (old(len(packet.rem(r))) - len(packet.rem(r))) + 65536 + 256
+//@   option alloc = 25 * len(packet.rem(r)) + 65536 + 256
+//@   behavior ser props=C16,C01,C02
+//@   ghost M Options, ord Ord
+//@   requires !packet.rfailed(r)
+//@   requires isperm(ord, M) && tlvwf(M) && packet.rem(r) == tlvser(M, ord, 0, len(M))
+//@   ensures [C16,C01,C02 parsed] !packet.rfailed(r) && mapeq(result, M)
+//@   loop 1
+//@     invariant packet.rinv(r)
+//@     invariant tlvwf(options)
+//@     invariant len(packet.rem(r)) <= entry(len(packet.rem(r)))
+//@     invariant entry(packet.rfailed(r)) ==> packet.rfailed(r)
+//@     invariant alloc <= entry(alloc) + 25 * (entry(len(packet.rem(r))) - len(packet.rem(r)))
+//@     invariant @ser 0 <= iter && iter <= len(M) && !packet.rfailed(r) && packet.rem(r) == tlvser(M, ord, iter, len(M))
+//@     invariant @ser len(options) == iter
+//@     invariant @ser forall k int :: mapdom(options, k) <==> (mapdom(M, k) && ordinv(ord, k) < iter)
+//@     invariant @ser forall k int :: mapdom(options, k) ==> options[k].tag == M[k].tag && options[k].length == M[k].length && content(options[k].value) == content(M[k].value)
+//@     decreases len(packet.rem(r))
